@@ -51,8 +51,20 @@ class FdTable(EngineBase):
               "read_bytes": rng.randrange(0, 2 ** 50),
               "write_bytes": rng.randrange(0, 2 ** 50),
               "cancelled_write_bytes": rng.randrange(0, 99)}
-        return {"fds": fds, "files": files, "io": io, "io_extra": io_extra,
-                "order": rng.choice(["sorted", "reversed", "o3", "o9"])}
+        world = {"fds": fds, "files": files, "io": io, "io_extra": io_extra,
+                 "order": rng.choice(["sorted", "reversed", "o3", "o9"])}
+        if rng.random() < 0.3:
+            # the caller happens to sit in a directory holding regular files
+            # named like the (relative) link targets of some descriptors
+            world["caller_cwd"] = "/work"
+            for fd, d in fds:
+                tgt = {"socket": "socket:[%d]" % d["ino"],
+                       "pipe": "pipe:[%d]" % d["ino"],
+                       "anon": "anon_inode:" + str(d.get("target"))}.get(
+                           d["kind"], d.get("target", ""))
+                if tgt and not tgt.startswith("/") and rng.random() < 0.8:
+                    files["/work/" + tgt] = {"t": "f", "data": "decoy"}
+        return world
 
     def execute(self, W, plan):
         psutil = W.psutil
@@ -62,6 +74,8 @@ class FdTable(EngineBase):
                             "io": plan["io"]}],
                  "files": plan["files"], "io_extra": plan["io_extra"],
                  "listdir_order": plan["order"], "max_acc": 40000}
+        if plan.get("caller_cwd"):
+            world["caller_cwd"] = plan["caller_cwd"]
         k = self.make_kernel(W.boot, world)
         k.keep_snaps = True
         self.install(k)
